@@ -93,7 +93,7 @@ def _wrap(cls):
             ids = sorted(b._c07_id for b in blks if hasattr(b, '_c07_id'))
             alarms[tod_us(tod)] = ids
         if caller == '_event_reconfig':
-            ev = {'k': 'config', 'blk': self._c07_id, 'state': self.get_state(), 'read': to_us(now), 'out': None,
+            ev = {'k': 'config', 'blk': self._c07_id, 'state': _cfg_state(self), 'read': to_us(now), 'out': None,
                   'alarms': sorted(t for t, ids in alarms.items() if self._c07_id in ids)}
         else:
             ev = {'k': 'recalc', 'blk': self._c07_id, 'read': to_us(now), 'out': None,
@@ -109,6 +109,14 @@ def _wrap(cls):
             ev['out'] = sets[n0] if len(sets) > n0 else self.output
     cls.recalc = recalc
     cls.set_output = set_output
+
+
+def _cfg_state(blk):
+    """the configuration `get_state()` would export, read from the attributes: the recalc wrapper runs inside the
+    FIRST `_event_reconfig` too, when the block has no output yet and (since /repo 6d74b5d) get_state() refuses"""
+    if hasattr(blk, '_span'):
+        return blk._span.as_list()
+    return blk._export3(blk._times, blk._dates, blk._weekdays)
 
 
 def tod_us(t):
